@@ -516,7 +516,11 @@ META = {
             "share a layer iff mutually reachable; neg_cycle is proved to be true exactly when a cycle contains a negative arc; such a "
             "layering exists iff neg_cycle is false, and a reference stratification produces one. The dependency-graph model mirrors "
             "makeDepGraph after fix F4 (temporal literals/atoms count; do-transform makes every body atom negative; EDB and builtins skipped; "
-            "negative wins), with a theorem that a temporal mention yields the same graph as the plain mention and a refutation of the pre-fix "
+            "negative wins), with the theorem depgraph_edges_exact that for every rule set the model's graph has exactly the rule heads as "
+            "vertices, a negative arc head->q exactly when some rule with that head mentions q negated or inside a do-transform rule, a "
+            "positive arc exactly when some rule mentions q positively and none negatively, mentions of EDB predicates and positive mentions "
+            "of built-ins being skipped and a mention inside a temporal literal counting like the plain one; a theorem that a temporal "
+            "mention yields the same graph as the plain mention and a refutation of the pre-fix "
             "graph on the chained temporal witness. On every run analysis.Stratify of /repo is executed 5/50 times per generated rule set "
             "(exhaustive over all 3^9 labellings of 3 predicates in the thorough tier, random graphs of 4-6 predicates, real source texts with "
             "temporal syntax) and every distinct answer (layers, map, error) is judged in Coq by the verified observer / neg_cycle against the "
